@@ -256,3 +256,87 @@ pub fn eq_laws<T: fmt::Debug>(r: &mut Rep, vs: &[T], eq: &dyn Fn(&T, &T) -> bool
         }
     }
 }
+
+// ------------------------------------------------------------------------------------------
+// C03 / C04 drivers
+
+/// model-side comparison of the NaN-like scalar (independent re-statement of N's semantics)
+pub fn n_pcmp(a: &N, b: &N) -> Option<Ordering> {
+    if a.0 == 9 || b.0 == 9 { None } else { Some(a.0.cmp(&b.0)) }
+}
+
+/// lexicographic fold used by the models: first result that is not Some(Equal), else Some(Equal)
+pub fn lex(steps: &[Option<Ordering>]) -> Option<Ordering> {
+    for s in steps {
+        match s {
+            Some(Ordering::Equal) => {}
+            o => return *o,
+        }
+    }
+    Some(Ordering::Equal)
+}
+
+pub fn ord_pairs<T: fmt::Debug>(
+    r: &mut Rep,
+    vs: &[T],
+    pcmp: &dyn Fn(&T, &T) -> Option<Ordering>,
+    cmp: Option<&dyn Fn(&T, &T) -> Ordering>,
+    model: &dyn Fn(&T, &T) -> Option<Ordering>,
+    ops: &dyn Fn(&T, &T) -> (bool, bool, bool, bool),
+) {
+    for a in vs {
+        for b in vs {
+            let want = model(a, b);
+            match guarded(|| (pcmp(a, b), cmp.map(|c| c(a, b)), ops(a, b))) {
+                Ok((p, c, (lt, le, gt, ge))) => {
+                    r.ck(p == want, ord_code(want), &|| format!("partial_cmp({:?}, {:?}) = {:?}, model {:?}", a, b, p, want));
+                    if let Some(c) = c {
+                        r.ck(Some(c) == want, 4 + ord_code(want), &|| format!("cmp({:?}, {:?}) = {:?}, model {:?}", a, b, c, want));
+                        r.ck(p == Some(c), 8, &|| format!("partial_cmp({:?}, {:?}) = {:?} but cmp = {:?}", a, b, p, c));
+                    }
+                    let exp = (want == Some(Ordering::Less), matches!(want, Some(Ordering::Less | Ordering::Equal)),
+                               want == Some(Ordering::Greater), matches!(want, Some(Ordering::Greater | Ordering::Equal)));
+                    r.ck((lt, le, gt, ge) == exp, 9, &|| format!("operators on ({:?}, {:?}) = {:?}, model {:?}", a, b, (lt, le, gt, ge), exp));
+                }
+                Err(p) => r.ck(false, 99, &|| format!("comparison of ({:?}, {:?}) panicked: {}", a, b, p)),
+            }
+        }
+    }
+}
+
+/// total order laws on all triples
+pub fn ord_laws<T: fmt::Debug>(r: &mut Rep, vs: &[T], cmp: &dyn Fn(&T, &T) -> Ordering) {
+    for a in vs {
+        r.ck(cmp(a, a) == Ordering::Equal, 0, &|| format!("law: cmp(a, a) != Equal for {:?}", a));
+        for b in vs {
+            let ab = cmp(a, b);
+            r.ck(ab == cmp(b, a).reverse(), 1, &|| format!("law: antisymmetry fails for {:?}, {:?}", a, b));
+            for c in vs {
+                let bc = cmp(b, c);
+                if ab != Ordering::Greater && bc != Ordering::Greater {
+                    let ac = cmp(a, c);
+                    let want_strict = ab == Ordering::Less || bc == Ordering::Less;
+                    r.ck(if want_strict { ac == Ordering::Less } else { ac == Ordering::Equal }, 2,
+                         &|| format!("law: transitivity fails for {:?}, {:?}, {:?}", a, b, c));
+                }
+            }
+        }
+    }
+}
+
+/// partial order laws (duality, transitivity of <) on all triples
+pub fn pord_laws<T: fmt::Debug>(r: &mut Rep, vs: &[T], pcmp: &dyn Fn(&T, &T) -> Option<Ordering>) {
+    for a in vs {
+        for b in vs {
+            let ab = pcmp(a, b);
+            r.ck(ab == pcmp(b, a).map(|o| o.reverse()), 1, &|| format!("law: duality fails for {:?}, {:?}", a, b));
+            if ab == Some(Ordering::Less) {
+                for c in vs {
+                    if pcmp(b, c) == Some(Ordering::Less) {
+                        r.ck(pcmp(a, c) == Some(Ordering::Less), 2, &|| format!("law: transitivity of < fails for {:?}, {:?}, {:?}", a, b, c));
+                    }
+                }
+            }
+        }
+    }
+}
